@@ -17,7 +17,8 @@ Structural necessary conditions, each of which breaks the behaviour when violate
   K4  the value itself: in and/or no JSON value is constructed (no Bool/Null/…
       aggregate, no named constant) — every Ok result derives from an evaluation
       result; in if/?: the only constructed value is the null constant;
-  K5  truthiness of the deciding values is taken through the shared table (C06 K1).
+  K5  the data is handed only to the evaluator (no private look-up whose notion of a
+      value could disagree with evaluation); truthiness through the shared table (C06 K1).
 Not decided: that conditions sit at even and branches at odd positions, and the
 polarity of the accumulator tests (value-level).
 """
@@ -47,7 +48,7 @@ def run(ctx):
         ctx.check(len({e_if.fn_key, e_and.fn_key, e_or.fn_key}) == 3, "K1.distinct", "if, and, or have their own implementations (%s)" % cfg, "two of if/and/or share one function", where=facts.body(e_if.table.const_key).where())
         p = P.Prov(roles).run()
         for name, e in (("if", e_if), ("and", e_and), ("or", e_or)):
-            u = Unit(roles, e.fn_key)
+            u = Unit(roles, e.fn_key, extended=True)
             root = u.root
             sink_keys = set(roles.sinks)
             eval_key = roles.parsed_evaluate
@@ -125,6 +126,19 @@ def run(ctx):
                                     early = True
                     ctx.check(early, "K3.skippable", "%s: the operand loop can be left after an evaluation (%s)" % (name, cfg),
                               "%s's loop over the operands has no early exit after evaluating an element" % name, where=b.where(), fn=b.key, nontrivial=True)
+            # ---- K5: the data is only ever handed to the evaluator (no private look-ups that could disagree with it)
+            for bb in u.bodies:
+                for bi, t in bb.calls():
+                    c = callee_of(t)
+                    if c is None:
+                        continue
+                    for a in t["args"]:
+                        if a["k"] in ("Copy", "Move") and bb.local_ty(a["place"]["local"]).endswith("serde_json::Value") and "DATA" in p.op_tags(bb, a) and "EVAL" not in p.op_tags(bb, a):
+                            own = {x.key for x in roles.unit(e.fn_key)}
+                            evaluating_helper = c.get("key") in u.keys and bool(facts.reach([c["key"]]) & set(roles.evaluators))
+                            okc = c.get("key") in roles.evaluators or c.get("key") in own or evaluating_helper
+                            ctx.check(okc, "K5.data-only-to-evaluator", "%s|%s" % (name, c["path"].split("::<")[0]),
+                                      "%s hands the data to %s instead of only evaluating its operands against it" % (name, c["path"]), where=bb.where(bi), fn=bb.key, nontrivial=True)
             # ---- K4: constructed values
             aggs = u.value_aggregates()
             consts = u.const_items()
